@@ -249,7 +249,7 @@ impl<'a> ExprAST<'a> {
             Self::Reference(name) => self.reference_expr(name),
             Self::Function(name, exprs) => self.function_expr(name, exprs.clone()),
             Self::Unary(op, rhs) => self.unary_expr(op, rhs),
-            Self::Binary(op, lhs, rhs) => self.binary_expr(op, op, lhs, rhs),
+            Self::Binary(..) => self.infix_render().map(|(text, _, _)| text).unwrap_or_default(),
             Self::Postfix(lhs, op) => self.postfix_expr(lhs, op),
             Self::Ternary(condition, lhs, rhs) => self.ternary_expr(condition, lhs, rhs),
             Self::List(params) => self.list_expr(params.clone()),
@@ -319,29 +319,38 @@ impl<'a> ExprAST<'a> {
     }
 
     fn unary_expr(&self, op: &'a str, rhs: &ExprAST) -> String {
-        if let Some((inner_op, lhs, rhs, true)) = self.infix_like() {
-            return self.binary_expr(&("not ".to_string() + inner_op), inner_op, lhs, rhs);
+        if let Some((text, _, _)) = self.infix_render() {
+            return text;
         }
         // a prefix operator binds tighter than every infix operator and the conditional
         op.to_string() + " " + &rhs.paren_expr(rhs.is_ternary() || rhs.infix_like().is_some())
     }
 
-    fn binary_expr(&self, shown_op: &str, op: &str, lhs: &ExprAST, rhs: &ExprAST) -> String {
+    // The text of `x OP y` / `x not OP y` together with the weakest binding powers still exposed on its two flanks:
+    // the smallest l_bp among the operators of its left spine and the smallest r_bp among those of its right spine,
+    // following a spine only through operands that are written without parentheses. An operand needs parentheses
+    // exactly when some exposed operator on its flank facing OP would not bind first; a redundant pair would cost
+    // the re-parse one level of nesting the original text did not need.
+    fn infix_render(&self) -> Option<(String, i32, i32)> {
+        let (op, lhs, rhs, negated) = self.infix_like()?;
         let (l_bp, r_bp) = InfixOpManager::new().get_precidence(op);
-        // an operand needs parentheses when some operator on its spine facing `op` would not bind first
-        let mut left_paren = lhs.is_ternary();
-        let mut node = lhs;
-        while let Some((x, _, next, _)) = node.infix_like() {
-            left_paren = left_paren || l_bp >= InfixOpManager::new().get_precidence(x).1;
-            node = next;
-        }
-        let mut right_paren = rhs.is_ternary();
-        let mut node = rhs;
-        while let Some((y, next, _, _)) = node.infix_like() {
-            right_paren = right_paren || r_bp >= InfixOpManager::new().get_precidence(y).0;
-            node = next;
-        }
-        lhs.paren_expr(left_paren) + " " + shown_op + " " + &rhs.paren_expr(right_paren)
+        let left = lhs.infix_render();
+        let right = rhs.infix_render();
+        let left_paren = lhs.is_ternary() || left.as_ref().map_or(false, |(_, _, r_min)| l_bp >= *r_min);
+        let right_paren = rhs.is_ternary() || right.as_ref().map_or(false, |(_, l_min, _)| r_bp >= *l_min);
+        let l_min = match &left {
+            Some((_, m, _)) if !left_paren => l_bp.min(*m),
+            _ => l_bp,
+        };
+        let r_min = match &right {
+            Some((_, _, m)) if !right_paren => r_bp.min(*m),
+            _ => r_bp,
+        };
+        let wrap = |text: String, need: bool| if need { "(".to_string() + &text + ")" } else { text };
+        let l_text = wrap(left.map_or_else(|| lhs.expr(), |(t, _, _)| t), left_paren);
+        let r_text = wrap(right.map_or_else(|| rhs.expr(), |(t, _, _)| t), right_paren);
+        let shown = if negated { "not ".to_string() + op } else { op.to_string() };
+        Some((l_text + " " + &shown + " " + &r_text, l_min, r_min))
     }
 
     fn postfix_expr(&self, lhs: &ExprAST, op: &str) -> String {
